@@ -1,4 +1,6 @@
 import BddVerif.Core.ApplyCanon
+import BddVerif.Lemmas.TernaryCanon
+import BddVerif.Lemmas.Ternary5
 import BddVerif.Drive.Tables
 import BddVerif.Gen.OpTables
 /-!
@@ -82,6 +84,51 @@ theorem connective_numbers :
 theorem ite_table_check : consistent3 ite_ 0xCA = true := by decide
 
 theorem ite_connective : ∀ a b c, conn3 0xCA a b c = (if a then b else c) := by decide
+
+
+/-! ### Ternary operators, `if_then_else`, `not` -/
+
+/-- **ternary_op with any consistent 27-entry table is the pointwise ternary connective** -/
+theorem ternary_pointwise (A B C : Arr) (n : Nat) (op : Op3) (c : Bool → Bool → Bool → Bool)
+    (hA : WFo A n) (hB : WFo B n) (hC : WFo C n) (hc : Consistent3 op c) (v : Nat → Bool) :
+    den (ternaryApply A B C op none none none none) v =
+      c (evW A n v (root A)) (evW B n v (root B)) (evW C n v (root C)) := by
+  have := ternaryApply_den A B C n op c none none none none hA hB hC hc
+    (fun _ h => by cases h) (fun _ h => by cases h) (fun _ h => by cases h) v
+  simpa [inv] using this
+
+/-- eager and lazy ternary tables of the same connective give the identical array -/
+theorem ternary_eager_lazy_same (A B C : Arr) (n : Nat) (op1 op2 : Op3) (c : Bool → Bool → Bool → Bool)
+    (hA : WFo A n) (hB : WFo B n) (hC : WFo C n) (h1 : Consistent3 op1 c) (h2 : Consistent3 op2 c) :
+    ternaryApply A B C op1 none none none none = ternaryApply A B C op2 none none none none :=
+  ternary_eager_lazy A B C n op1 op2 c none none none none hA hB hC h1 h2
+    (fun _ h => by cases h) (fun _ h => by cases h) (fun _ h => by cases h)
+
+/-- **if_then_else** (the regenerated `ite_function` table through `ternary_apply`) -/
+theorem if_then_else_pointwise (A B C : Arr) (n : Nat) (hA : WFo A n) (hB : WFo B n) (hC : WFo C n)
+    (v : Nat → Bool) :
+    den (ternaryApply A B C ite_ none none none none) v =
+      if evW A n v (root A) then evW B n v (root B) else evW C n v (root C) :=
+  ite_den A B C n hA hB hC v
+
+/-- the regenerated `ite_function` answers on partial information only when every completion agrees -/
+theorem ite_table_consistent : Consistent3 ite_ (fun a b c => if a then b else c) := ite_consistent3
+
+/-- the executable table checks the driver applies to arbitrary 9- and 27-character tables are sound:
+    a table that passes is `Consistent` with its connective, so the theorems above apply to it -/
+theorem table_checks_sound :
+    (∀ op cn, consistent2 op cn = true → Consistent op (conn2 cn)) ∧
+    (∀ op cn, consistent3 op cn = true → Consistent3 op (conn3 cn)) :=
+  ⟨fun _ _ h => consistent2_of_check h, fun _ _ h => consistent3_of_check h⟩
+
+/-- **not** computes pointwise negation (constants are swapped, otherwise terminal links are flipped),
+    and on the canonical form of `f` it returns the canonical form of `¬f`. -/
+theorem not_pointwise {A : Arr} {n : Nat} (h : A.size = 1 ∨ Red A n) (v : Nat → Bool) :
+    den (bddNot A) v = !(den A v) := bddNot_den h v
+
+theorem not_canonical_form (n : Nat) (f : (Nat → Bool) → Bool)
+    (hdep : ∀ v w : Nat → Bool, (∀ i, i < n → v i = w i) → f v = f w) :
+    bddNot (canon n f) = canon n (fun v => !f v) := bddNot_canon n f hdep
 
 /-! ### Non-vacuity: the hypotheses are met by concrete, non-trivial operands -/
 
